@@ -31,7 +31,9 @@ for mid in ids:
             t = time.time()
             r = subprocess.run(["python3-vt", os.path.join(V, "check.py"), p],
                                capture_output=True, text=True, cwd=V,
-                               env=dict(os.environ, PYVC_REPO=d))
+                               env=dict(os.environ, PYVC_REPO=d,
+                                        PYVC_EVIDENCE_DIR="/tmp/mut/evidence",
+                                        PYVC_REPLAY_DIR="/tmp/mut/replays"))
             viol = [l for l in r.stdout.splitlines() if l.startswith("VIOLATION")]
             row[p] = {"exit": r.returncode, "violations": len(viol),
                       "first": viol[0][:300] if viol else (r.stdout.strip().splitlines() or [""])[-1][:300],
